@@ -1,6 +1,6 @@
 (* C11 — A configuration that type-checks cannot fail at check time. *)
 From Coq Require Import List Bool NArith ZArith.
-From Keto Require Import Base.Bytes Store.Sql Engine.Ast Engine.Engine Opl.Typecheck Opl.TypecheckProofs.
+From Keto Require Import Base.Bytes Store.Sql Engine.Ast Engine.Engine Opl.Lexer Opl.Parser Opl.Typecheck Opl.TypecheckProofs Opl.ParserTyped.
 Import ListNotations.
 
 (* For every well-typed configuration (the predicate the type checks establish; the check verifies on every run that
@@ -20,3 +20,19 @@ Theorem C11_declared_is_goal : forall cfg n r, declared cfg n r = true -> Decl c
 Proof. exact declared_Decl. Qed.
 (* The converse clause (an undeclared reference is rejected with an error at the offending token) is decided by the
    TYPECHK suite for each of the seven reference kinds on the real parser and on the parser model (Opl/Parser.v). *)
+
+(* THE TIE TO THE PARSER, for every source text: whatever bytes are given, if the parser (model of internal/schema:
+   lexer, parser and the type checks of typechecks.go) reports no error, the namespaces it returns are well-typed.
+   Proof: every reference the parser builds into the AST is covered by a registered type check (an invariant of all
+   parse functions), and a passing check is exactly the corresponding clause of the predicate. *)
+Theorem C11_accepted_is_welltyped : forall s, snd (Parse s) = [] -> welltyped (fst (Parse s)) = true.
+Proof. exact parse_welltyped. Qed.
+(* ... hence: a document accepted by the parser cannot produce a schema error at check time on conforming data *)
+Theorem C11_accepted_cannot_fail : forall s strict nid d maxWidth sub,
+  snd (Parse s) = [] ->
+  (forall x, In x (rows d) -> in_net nid x = true -> row_conforms (fst (Parse s)) x = true) ->
+  forall gas ns obj rel request global o,
+  Decl (fst (Parse s)) ns rel ->
+  CheckRelationTuple gas (fst (Parse s)) strict nid d maxWidth (fun _ => false) ns obj rel sub request global = Some o ->
+  r_err (o_res o) = false.
+Proof. intros s strict nid d maxWidth sub Hacc CONF. exact (no_schema_error (fst (Parse s)) strict nid d maxWidth sub (parse_welltyped s Hacc) CONF). Qed.
